@@ -56,6 +56,11 @@ func (st *State) Call(fv *FuncV, args []Value, deferOf *frame) Value {
 		if strings.HasPrefix(fv.Native, "@opaque:") {
 			return st.E.opaqueResults(st, fv.Native[8:], fv.Sig, args)
 		}
+		if strings.HasPrefix(fv.Native, "@stub:") {
+			r := st.E.opaqueResults(st, fv.Native, fv.Sig, args)
+			st.events[len(st.events)-1].Result = r
+			return r
+		}
 		h := st.E.Hooks[fv.Native]
 		if h == nil {
 			st.unsupported("no hook for native function %s", fv.Native)
